@@ -73,7 +73,9 @@ impl Array {
         if !self.is_tracked.get() {
             result
         } else {
-            let backward_op: BackwardOp = Rc::new(move |c, _, x| vec![Some(&(&c[0] * 2.0) * x)]);
+            let backward_op: BackwardOp = Rc::new(move |c, _, x| {
+                vec![Some(&(&c[0].powf(exponent - 1.0) * exponent) * x)]
+            });
 
             result
                 .with_children(vec![self.clone()])
